@@ -765,3 +765,32 @@ Section MaskThm.
       + exact Hmem.
   Qed.
 End MaskThm.
+
+(* the property-level form: for EVERY cut-over position the mask is the filter spec — as a set of
+   positions always, as a list when the rows narrowed by binary search have positive steps *)
+Theorem mask_strategy_irrelevant_perm (pts : points) (inds : list triple) :
+  StronglySorted lex_lt pts -> Forall row_ok inds -> points_long pts (length inds) ->
+  forall k,
+    Permutation (mask_positions (compute_mask k pts inds)) (mask_spec pts inds)
+    /\ (Forall (fun t => 0 < step_of t) (firstn k inds) ->
+        mask_positions (compute_mask k pts inds) = mask_spec pts inds).
+Proof.
+  intros Hs Hok Hlong k. destruct (mask_strategy_irrelevant_proof pts Hs inds Hok Hlong k) as [Hnd [Hmem Heq]].
+  split; [|exact Heq]. apply NoDup_Permutation; [exact Hnd|apply NoDup_filter, seq_NoDup|exact Hmem].
+Qed.
+
+(* non-vacuity: sorted coordinates of a 2-d array, rows x[1:3, ::-1]; every cut-over gives positions 2,3,4 *)
+Example mask_nonvacuous :
+  let pts := [[0; 1]; [0; 2]; [1; 0]; [1; 2]; [2; 1]; [3; 0]] in
+  let inds := [(1, 3, 1); (2, -1, -1)] in
+  StronglySorted lex_lt pts /\ Forall row_ok inds /\ points_long pts (length inds)
+  /\ mask_spec pts inds = [2; 3; 4]%nat
+  /\ mask_positions (compute_mask 0 pts inds) = [2; 3; 4]%nat
+  /\ mask_positions (compute_mask 1 pts inds) = [2; 3; 4]%nat
+  /\ Permutation (mask_positions (compute_mask 2 pts inds)) [2; 3; 4]%nat.
+Proof.
+  cbv zeta. split; [apply sorted_strict_SS; reflexivity|]. split; [repeat constructor; discriminate|].
+  split; [intros j Hj; simpl in Hj; do 6 (destruct j as [|j]; [simpl; lia|]); lia|].
+  split; [reflexivity|]. split; [reflexivity|]. split; [reflexivity|].
+  vm_compute. apply perm_swap.  (* narrowing on the reversed axis visits 3 before 2 *)
+Qed.
